@@ -23,7 +23,7 @@ LEAVES = [
     T.lam(a, "Any", "x", T.binop("Eq", T.path("x", "b"), a)), T.lam(T.I("xs"), "All", "a", T.binop("Eq", T.path("a", "b"), b)),
     T.lam(T.path("a", "b"), "Any"), T.lst(a, T.path("a", "b"), T.Int(1)), T.Int(1), T.Str("a"), T.I("p"), T.I("x"), T.path("x", "b"),
     T.lam(T.I("zz"), "Any", "x", T.lam(T.path("x", "ys"), "All", "y", T.binop("Gt", T.path("y", "a"), T.path("a", "b")))),
-    T.I("a", ("ns",)), T.call("length", T.I("length")),
+    T.I("a", ("ns",)), T.call("length", T.I("length")), T.I("b", ("a",)), T.A(T.I("b", ("a",)), "c"),
     # an inner lambda re-binds the outer variable; the outer variable is used again afterwards
     T.lam(a, "Any", "x", T.binop("And", T.lam(T.path("x", "ys"), "Any", "x", T.binop("Eq", T.path("x", "p"), b)), T.binop("Eq", T.path("x", "b"), a))),
     T.lam(T.I("xs"), "All", "a", T.binop("Or", T.lam(T.path("a", "b"), "Any", "a", T.binop("Eq", T.I("a"), T.Int(1))), T.binop("Eq", T.I("a"), b))),
@@ -33,7 +33,7 @@ LEAVES = [
 ]
 LIST_LEAVES = [T.lst(a, T.Int(1)), T.lst(T.path("a", "b")), T.lst(T.I("date"), b)]
 
-KEYS = [a, b, T.path("a", "b"), T.path("a", "b", "c"), T.I("date"), T.I("length"), T.I("p"), T.I("x"), T.I("zz")]
+KEYS = [a, b, T.path("a", "b"), T.path("a", "b", "c"), T.I("date"), T.I("length"), T.I("p"), T.I("x"), T.I("zz"), T.I("b", ("a",))]
 TARGETS = [T.I("c"), T.path("c", "d"), T.call("length", T.I("c")), a, b]
 
 
